@@ -29,11 +29,21 @@ EXPLANATION = (
     "indices). R14d: exponents (lowered one by one, recursion until none is left, exponents < 1 refused; derivative "
     "e x^(e-1) with the base re-inserted). R14e: several occurrences (sorted block-key tuples, product rule), several "
     "terms (accumulation per key), terms without the tensor under ('none',), spin block keys, input guards, "
-    "assumptions preserved. R08g: minimize_tensor_indices (used by both functions) on all index tuples of length <= 3.")
+    "assumptions preserved, the input expression unchanged, no mutable Expr shared between keys. R08g: the index "
+    "primitives the model takes for granted are themselves evaluated from the library source: minimize_tensor_indices on "
+    "all index tuples of length <= 3 (targets stay, lowest unused non-target names in order of first appearance, the "
+    "returned transpositions reproduce the result), get_lowest_avail_indices on a table of requests, Container.permute "
+    "(composition of the transpositions in the given order). Thorough tier: the table tensor class x bra-ket symmetry x "
+    "group sizes (0..3 upper/lower) x spaces, with and without reserved target names, for both functions.")
 ASSUMPTIONS = [
-    "the vocabulary (Expr/Term/Obj containers, tensor classes, KroneckerDelta, Term.symmetry, minimize_tensor_indices, "
-    "get_lowest_avail_indices, get_symbols, simplify, sympy diff/subs/Pow/sqrt/Rational) behaves as modelled in "
-    "sa/rules/talg.py and tmodel.py (their own properties are checked by C08/C13/C16)",
+    "the vocabulary (Expr/Term/Obj containers incl. in-place operators of Expr, tensor classes and their canonical "
+    "form, KroneckerDelta, Term.symmetry = all index permutations within (space, spin) classes mapping the term onto "
+    "+-itself, get_symbols, simplify = value preserving, sympy diff/subs/Pow/sqrt/Rational) behaves as modelled in "
+    "sa/rules/talg.py and tmodel.py; minimize_tensor_indices, get_lowest_avail_indices and Container.permute are "
+    "checked against the model from source (R08g)",
+    "unsorted index groups after the minimisation do not occur with the library's minimize_tensor_indices once target "
+    "indices have been replaced on the tensor; the sign clause is decided under the weaker contract 'some renaming by "
+    "transpositions onto low non-target names' (scenario 'unsorted groups')",
     "bounded: the listed scenarios (tensors of rank <= 6, at most three occurrences, exponents <= 3)",
     "the re-contraction (round trip) is decided for terms with one occurrence of the tensor; for several occurrences "
     "only the closed formula is compared",
@@ -512,10 +522,10 @@ def _input_unchanged(ctx, fn, label, sc, rec, before):
               f"{_show(rec.attrs['val'], 120)}", key=f"{label} {sc.id} input")
 
 
-def check_remove(ctx):
+def check_remove(ctx, scenarios=None, guards=True, label=""):
     fn = ctx.model.fn(RM)
     n = 0
-    for sc in remove_scenarios():
+    for sc in (remove_scenarios() if scenarios is None else scenarios):
         holder = {}
 
         def make(w, sc=sc, holder=holder):
@@ -575,9 +585,9 @@ def check_remove(ctx):
                   f"remove_tensor on {sc.what} ({_show(sc.expr, 120)}): the block expression contracted with the tensor block "
                   f"{talg.show_factor(rm.tensor)} gives {_show(ca, 200)}; {_show(rm.kappa, 40)} times the original term is {_show(cb, 200)} "
                   f"(contracted indices renamed canonically, deltas resolved)", key=f"remove_tensor {sc.id} round trip")
-    ctx.floor("R14a", "remove_tensor scenarios evaluated", n, 10 if ctx.only_rule else 40)
+    ctx.floor("R14a", f"remove_tensor {label} scenarios evaluated".replace("  ", " "), n, 40)
     # input guards
-    if ctx.want("R14e"):
+    if guards and ctx.want("R14e"):
         g = Sc("guards", "R14e", "input guards", A("d", "k", "c") * N("x", "kc"), "d")
         for what, make in (("an expression that is no Expr", lambda w: dict(expr=w.sv(g.expr), t_name="d")),
                            ("a plain number as expression", lambda w: dict(expr=3, t_name="d")),
@@ -588,10 +598,10 @@ def check_remove(ctx):
                       f"remove_tensor accepts {what}: {kind} {val if kind == 'raise' else ''}", key=f"remove_tensor guard {what}")
 
 
-def check_derivative(ctx):
+def check_derivative(ctx, scenarios=None, guards=True, label=""):
     fn = ctx.model.fn(DV)
     n = 0
-    for sc in derivative_scenarios():
+    for sc in (derivative_scenarios() if scenarios is None else scenarios):
         holder = {}
 
         def make(w, sc=sc, holder=holder):
@@ -639,8 +649,8 @@ def check_derivative(ctx):
         ctx.check("R14b" if same else sc.rule, fn, eq, f"derivative [{sc.what}]: sum over blocks of dE/dD x var(D) = first-order change of E",
                   f"derivative on {sc.what} ({_show(sc.expr, 120)}): contracting the block derivatives with a variation of the tensor "
                   f"gives {_show(ca, 200)}; the first-order change of the expression is {_show(cb, 200)}", key=f"derivative {sc.id} variation")
-    ctx.floor("R14b", "derivative scenarios evaluated", n, 5 if ctx.only_rule else 18)
-    if ctx.want("R14e"):
+    ctx.floor("R14b", f"derivative {label} scenarios evaluated".replace("  ", " "), n, 18)
+    if guards and ctx.want("R14e"):
         g = Sc("guards", "R14e", "input guards", A("d", "k", "c") * N("x", "kc"), "d")
         kind, val, w = _evaluate(ctx, DV, g, lambda w: dict(expr=w.expr(g.expr, w.assumptions()), t_string=5))
         ctx.check("R14e", fn, kind == "raise" and val == "TypeError", "derivative: a tensor name that is no string is refused (TypeError)",
@@ -720,9 +730,110 @@ def r08g(ctx):
     ctx.floor(rule, "requests for lowest available names", m, 60)
 
 
+def permute_model(ctx):
+    """Container.permute evaluated from source: the substitution handed to ``subs`` is the composition of the
+    transpositions in the given order (what the model's ``permute`` implements)."""
+    import itertools
+    rule = "R08g"
+    fn = ctx.model.fn("expr_container:Container.permute")
+    w = tmodel.World()
+    b = tmodel.Binding(w)
+    captured = []
+
+    def subs(sx, a, kw):
+        captured.append(a[1])
+        return a[0]
+    hooks = {"order_substitutions": lambda sx, a, kw: list(a[0].items()), "subs": subs}
+    sx = b.make(ctx.model, "Container.permute", extra_hooks=hooks)
+    names = [ix(x) for x in "ijk"] + [ix("a"), ix("b")]
+    pairs = [(p, q) for p, q in itertools.combinations(names, 2) if talg.space_of(p[0]) == talg.space_of(q[0])]
+    seqs = [()] + [(p,) for p in pairs] + list(itertools.product(pairs, repeat=2)) + \
+        [(pairs[0], pairs[1], pairs[2]), (pairs[0], pairs[1], pairs[0]), (pairs[2], pairs[0], pairs[3], pairs[1])]
+    n = 0
+    for seq in seqs:
+        del captured[:]
+        probe = w.expr(Poly.num(1), w.assumptions())
+        outs = sx.run(fn, lambda: dict(self=probe, perms=tuple((w.index(p), w.index(q)) for p, q in seq)))
+        label = " ".join(f"P_{p[0]}{q[0]}" for p, q in seq) or "no permutation"
+        if len(outs) != 1 or outs[0].kind != "return" or len(captured) != 1:
+            ctx.bad(rule, fn, f"Container.permute({label}): {outs}", key=f"permute {label}")
+            continue
+        n += 1
+        try:
+            got = {k.attrs["_ix"]: v.attrs["_ix"] for k, v in captured[0]}
+        except (AttributeError, KeyError, TypeError, ValueError):
+            ctx.bad(rule, fn, f"Container.permute({label}) substitutes {captured[0]!r}", key=f"permute {label}")
+            continue
+        want = {}
+        for s0 in names:
+            c = s0
+            for p, q in seq:
+                c = q if c == p else p if c == q else c
+            want[s0] = c
+        ok = all(got.get(s0, s0) == want[s0] for s0 in names) and set(got) <= set(names)
+        ctx.check(rule, fn, ok, f"permute({label}) substitutes the composition of the transpositions",
+                  f"Container.permute({label}) substitutes {dict((k[0], v[0]) for k, v in got.items())}; applying the "
+                  f"transpositions one after another gives {dict((k[0], v[0]) for k, v in want.items() if k != v)}",
+                  key=f"permute {label}")
+    ctx.floor(rule, "permutation sequences composed", n, 20)
+
+
+def thorough_scenarios():
+    """Systematic table: tensor class x bra-ket symmetry x group sizes x names / targets."""
+    out = {"remove": [], "derivative": []}
+    occ, virt = "klmn", "cdef"
+    seen = set()
+    for cls in ("AntiSymmetricTensor", "SymmetricTensor", "Amplitude"):
+        for bks in (0, 1, -1):
+            for nu, nl in ((1, 1), (2, 2), (2, 1), (1, 2), (0, 2), (2, 0), (3, 3)):
+                for spaces in ("vo", "oo", "vv", "ov"):
+                    if bks and (nu != nl or (nu, nl) == (3, 3) and spaces != "vo"):
+                        continue
+                    if (nu, nl) == (3, 3) and cls != "AntiSymmetricTensor":
+                        continue
+                    pool = {"o": list(occ), "v": list(virt)}
+                    if spaces[0] == spaces[1] and nu + nl > 4:
+                        continue
+                    up = "".join(pool[spaces[0]].pop(0) for _ in range(nu))
+                    lo = "".join(pool[spaces[1]].pop(0) for _ in range(nl))
+                    try:
+                        t = A("T", up, lo, bks, cls)
+                    except (ModelError, AssertionError):
+                        continue
+                    # the tensor as it is stored (canonical form) fixes the order of the remainder's indices
+                    (m, c), = t.t.items()
+                    idx = "".join(s[0] for s in talg.factor_idx(m[0][0]))
+                    rest = N("x", idx[::-1])
+                    sid = f"{cls} bks={bks} {up}/{lo}"
+                    if sid in seen:
+                        continue
+                    seen.add(sid)
+                    for tname, adc in (("T", ()), ("Y", ("Y",))):
+                        if tname == "Y" and (cls != "Amplitude"):
+                            continue
+                        tt = A(tname, up, lo, bks, cls)
+                        out["remove"].append(Sc(f"{sid} {tname}", "R14a", f"{tname}^{up}_{lo} ({cls}, bra-ket symmetry {bks})",
+                                                num(2) * tt * rest, tname, adc=adc))
+                    out["derivative"].append(Sc(sid, "R14b", f"T^{up}_{lo} ({cls}, bra-ket symmetry {bks})", num(2) * t * rest, "T"))
+                    # a target index of the remainder reserves a name
+                    out["remove"].append(Sc(f"{sid} target", "R14c", f"T^{up}_{lo} ({cls}, bra-ket symmetry {bks}) next to targets i, a",
+                                            t * rest * N("y", "ia"), "T"))
+                    out["derivative"].append(Sc(f"{sid} target", "R14e", f"T^{up}_{lo} ({cls}, bra-ket symmetry {bks}) next to targets i, a",
+                                                t * rest * N("y", "ia"), "T"))
+    return out
+
+
+def run_thorough(ctx):
+    if any(ctx.want(r) for r in ("R14a", "R14b", "R14c", "R14d", "R14e")):
+        sc = thorough_scenarios()
+        check_remove(ctx, sc["remove"], guards=False, label="table")
+        check_derivative(ctx, sc["derivative"], guards=False, label="table")
+
+
 def run(ctx):
     if any(ctx.want(r) for r in ("R14a", "R14b", "R14c", "R14d", "R14e")):
         check_remove(ctx)
         check_derivative(ctx)
     if ctx.want("R08g"):
         r08g(ctx)
+        permute_model(ctx)
